@@ -863,6 +863,37 @@ _PLUS1 = ("sympy.S.One", "One", "1", "sympy.Integer(1)")
 _MINUS1 = tuple("-" + t for t in _PLUS1) + ("sympy.S.NegativeOne",)
 
 
+def _shifted_energy(repo: Repo, e: ast.AST):
+    """`H.xreplace(D)`  or a module-level helper h(H, ...) that returns `<first parameter>.xreplace(D)`:
+    -> (text of H, an `H.xreplace(<dictionary expression>)` call with the helper's dictionary expanded) or None."""
+    from .sem import Scope, bind_args, dict_filled_by_loop
+    if isinstance(e, ast.Call) and isinstance(e.func, ast.Attribute) and e.func.attr == "xreplace" and len(e.args) == 1:
+        return norm(e.func.value), e
+    if isinstance(e, ast.Call) and isinstance(e.func, ast.Name):
+        helper = Scope(repo.trees["second_quantization"]).get(e.func.id)
+        if helper is None or not helper.args.args:
+            return None
+        binding = bind_args(helper, e)
+        if binding is None:
+            return None
+        rets = [n for n in ast.walk(helper) if isinstance(n, ast.Return)]
+        if len(rets) != 1:
+            return None
+        rv = rets[0].value
+        p0 = helper.args.args[0].arg
+        if not (isinstance(rv, ast.Call) and isinstance(rv.func, ast.Attribute) and rv.func.attr == "xreplace" and norm(rv.func.value) == p0
+                and len(rv.args) == 1 and isinstance(rv.args[0], ast.Name)):
+            return None
+        consts = {k: v.value for k, v in binding.items() if isinstance(v, ast.Constant) and isinstance(v.value, bool)}
+        hatom = lambda n: consts.get(n.id) if isinstance(n, ast.Name) else None
+        dc = dict_filled_by_loop(helper.body, rv.args[0].id, {k: v for k, v in binding.items() if k not in consts and k != p0}, hatom)
+        if dc is None:
+            return None
+        call = ast.Call(func=ast.Attribute(value=binding[p0], attr="xreplace", ctx=ast.Load()), args=[dc], keywords=[])
+        return norm(binding[p0]), call
+    return None
+
+
 def rule_solve_scalar(rep: Report, repo: Repo):
     """H_ii V - V H_jj = Y term by term:  H_ii(N) (a†)^m v(N) a^p - (a†)^m v(N) a^p H_jj(N)
     = (a†)^m [H_ii(N + m) - H_jj(N + p)] v(N) a^p   (fermions/spins: N -> 1 on the side that carries the operator).
@@ -931,16 +962,17 @@ def rule_solve_scalar(rep: Report, repo: Repo):
                 raise AnalysisError(R, f"solve_scalar: solved coefficient `{norm(v)[:100]}` is not sign * coeff / denominator")
             sg = -1 if (sign and norm(sign[0]) in _MINUS1) else 1
             diffs = [n_ for n_ in ast.walk(den[0]) if isinstance(n_, ast.BinOp) and isinstance(n_.op, ast.Sub)
-                     and all(isinstance(x, ast.Call) and isinstance(x.func, ast.Attribute) and x.func.attr == "xreplace" for x in (n_.left, n_.right))]
+                     and all(_shifted_energy(repo, x) is not None for x in (n_.left, n_.right))]
             if len(diffs) != 1:
                 raise AnalysisError(R, f"solve_scalar: denominator `{norm(den[0])[:100]}` is not built from H_ii' - H_jj'")
-            bases = (norm(diffs[0].left.func.value), norm(diffs[0].right.func.value))
+            sides = [_shifted_energy(repo, diffs[0].left), _shifted_energy(repo, diffs[0].right)]
+            bases = (sides[0][0], sides[1][0])
             if set(bases) != {"H_ii", "H_jj"}:
                 raise AnalysisError(R, f"solve_scalar: denominator subtracts {bases}")
             orient = 1 if bases == ("H_ii", "H_jj") else -1
             results[(neg, diag)] = ("solve", sg, orient)
-            for side in (diffs[0].left, diffs[0].right):
-                shift_nodes[norm(side.func.value)] = (side, stores[0][0])
+            for base_, call_ in sides:
+                shift_nodes[base_] = (call_, stores[0][0])
     want_skip = {(False, True)}
     ok_skip = all((results[k] == ("skip",)) == (k in want_skip) for k in results)
     ok_sign = all(r[1] * r[2] == 1 for r in results.values() if r[0] == "solve")
@@ -1009,6 +1041,9 @@ def rule_solve_scalar(rep: Report, repo: Repo):
                         and isinstance(st.value.op, ast.Sub) and norm(st.value.left) == st.targets[0].id \
                         and norm(st.value.right) == f"{st.targets[0].id}.adjoint()":
                     got.add(f"{st.targets[0].id} -= {st.targets[0].id}.adjoint()")
+            if o.kind == "return" and isinstance(o.node, ast.Return) and isinstance(o.node.value, ast.BinOp) and isinstance(o.node.value.op, ast.Sub) \
+                    and isinstance(o.node.value.left, ast.Name) and norm(o.node.value.right) == f"{o.node.value.left.id}.adjoint()":
+                got.add(f"{o.node.value.left.id} -= {o.node.value.left.id}.adjoint()")
         comp[diag] = sorted(got)
     ok = ok_skip and comp[False] == [] and len(comp[True]) == 1 and _re.fullmatch(r"(\w+) -= \1\.adjoint\(\)", comp[True][0]) is not None
     rep.check(ok, R, "second_quantization::solve_scalar diagonal entries: solve half of the terms, complete with minus the adjoint (anti-Hermitian solution)",
